@@ -5,6 +5,9 @@ move performed inside one critical section of one mutex, by generic code that ca
 from . import batcher, common, mir
 
 
+OVERLAYS = ('K3',)
+
+
 def run(chk):
     P = mir.Program("K1")
     chk.use_program(P)
